@@ -330,7 +330,13 @@ def run_check(pid, tier, seed, mc_cfgs, profiles, thorough_profiles, assumptions
         summ = json.load(open(tpath + ".summary"))
         vlib.log("[channet] %s %s" % (bname, summ))
         if summ["setup_failures"]:
-            raise vlib.ToolError("channet could not build the network in %d runs" % summ["setup_failures"])
+            # opening channels between honest nodes is honest traffic too: a panic there is a verdict about the code
+            # under test (the script generators only use configurations the unchanged library accepts)
+            vlib.log("[channet] %d runs panicked while the network was being opened: %s" % (summ["setup_failures"], summ.get("setup_panic", "")[:300]))
+            if vlib.report_violation(pid, "%s-setup" % bname, {
+                    "property": pid, "kind": "panic while opening channels", "message": summ.get("setup_panic", ""),
+                    "batch": bname, "engine_args": args + ["--seed", seed * 100 + bi]}, key=None):
+                nviol += 1
         total_runs += summ["runs"]
         executed += summ["executed"]
         skipped += summ["skipped"]
